@@ -391,3 +391,34 @@ def brute_language(rules, S, V, maxlen, maxsteps=200000):
         for b in byhead.get(s, ()):
             stack.append(form[:k] + b + form[k + 1 :])
     return out
+
+
+def enum_weighted(wrules, S, V, maxsteps=40, zero=None):
+    """Leftmost-derivation enumeration carrying the actual (Poly) rule weights; a
+    branch is pruned when its weight becomes zero (degree > D).  For grammars
+    whose every cycle passes through a rule of degree >= 1 this yields the
+    complete truncated series {yield: weight}.  Raises NoConvergence if a branch
+    exceeds maxsteps (a degree-0 cycle)."""
+    out = {}
+    byhead = {}
+    for w, h, b in wrules:
+        byhead.setdefault(h, []).append((w, tuple(b)))
+    zero = Poly.zero if zero is None else zero
+
+    def rec(form, w, steps):
+        for k, s in enumerate(form):
+            if s not in V:
+                break
+        else:
+            out[form] = out[form] + w if form in out else w
+            return
+        if steps >= maxsteps:
+            raise NoConvergence("enum_weighted: derivation exceeds the step cap")
+        for rw, b in byhead.get(s, ()):
+            w2 = w * rw
+            if w2 == zero:
+                continue
+            rec(form[:k] + b + form[k + 1 :], w2, steps + 1)
+
+    rec((S,), Poly.one, 0)
+    return {y: w for y, w in out.items() if w != zero}
